@@ -254,6 +254,9 @@ func runC09R2(c *Ctx) {
 	c.Floor("C09-R3", "callers of nextAddresses", len(refs), 2)
 	// "afterwards the database agrees with memory": a reloaded account starts from the persisted indices of the same branch
 	checkLoaderCopies(c, "C09-R2")
+	// ... and nothing outside the issuing transaction may write the persisted next index back from the in-memory
+	// mirror (which lags the database inside the commit window that R1's mutex protects only for the issuers)
+	checkRowRewrites(c, "C09-R2")
 }
 
 func isIndexMirror(field string) bool {
